@@ -1,10 +1,12 @@
 import FluentProofs.SerializerOutCr4
 /-!
-# Serializer lemmas, part 26: patterns of CRLF sources are in the class after joining (C04)
+# Serializer lemmas, part 26: the patterns of ANY source are in the class after joining (C04)
 
-`getPattern_mlPattern_join`: for every source in which each `\r` is followed by `\n`, the pattern returned by
-`get_pattern`, with every text that does not end in `\n` joined to the text that follows it (`joinTop`, the
-top level of `nPat okSafe`), satisfies `mlPattern`.
+`getPattern_mlPattern_joinAll`: for every source (no hypothesis on `\r`), the pattern returned by
+`get_pattern`, with every text that does not end in `\n` joined to the text that follows it unless a `\r`
+would meet a `\n` (`joinTop`, the top level of `nPat okSafe`), satisfies `mlPattern`.
+`getPattern_mlPattern_join` is the same statement with the (now unused) hypothesis `NoLoneCR`, kept for the
+files that use it.
 -/
 namespace FluentProofs.Ser
 open FluentModel FluentModel.Syntax FluentModel.Syntax.Ser FluentProofs.Parser
@@ -41,8 +43,8 @@ theorem finish_mlPatternC {s : Src} {r0 : TextPos} (hr0 : r0 = .lineStart ∨ r0
     · subst h; cases h0
 
 /-- **Every pattern `get_pattern` returns is in the class `mlPattern` after joining split line ends**
-(sources in which every `\r` is followed by `\n`; any fuel, any start position). -/
-theorem getPattern_mlPattern_join {s : Src} (hcr : NoLoneCR s) (n p : Nat) (els : List (PatElem Span)) (q : Nat)
+(ANY source — also with `\r` that is not followed by `\n`; any fuel, any start position). -/
+theorem getPattern_mlPattern_joinAll (s : Src) (n p : Nat) (els : List (PatElem Span)) (q : Nat)
     (h : getPattern s n p = .ok (some els) q) : mlPattern (joinTop (mapPat (spanBytes s) els)) = true := by
   cases n with
   | zero => simp [getPattern] at h
@@ -52,8 +54,8 @@ theorem getPattern_mlPattern_join {s : Src} (hcr : NoLoneCR s) (n p : Nat) (els 
       simp only [getPattern, hE] at h
       split at h <;> try (cases h; done)
       rename_i st q' hloop
-      obtain ⟨p', hI⟩ := patternLoop_pinvC hcr .initialLineStart n _ _ st q'
-        (pinvC_init_inline hcr _ (sbi_stop s p) hE) hloop
+      obtain ⟨p', hI⟩ := patternLoop_pinvC .initialLineStart n _ _ st q'
+        (pinvC_init_inline _ (sbi_stop s p) hE) hloop
       split at h
       · rename_i lnb hl
         split at h <;> try (cases h; done)
@@ -65,7 +67,7 @@ theorem getPattern_mlPattern_join {s : Src} (hcr : NoLoneCR s) (n p : Nat) (els 
       simp only [getPattern, hE] at h
       split at h <;> try (cases h; done)
       rename_i st q' hloop
-      obtain ⟨p', hI⟩ := patternLoop_pinvC hcr .lineStart n _ _ st q' (pinvC_init_block hcr q0) hloop
+      obtain ⟨p', hI⟩ := patternLoop_pinvC .lineStart n _ _ st q' (pinvC_init_block q0) hloop
       split at h
       · rename_i lnb hl
         split at h <;> try (cases h; done)
@@ -73,5 +75,10 @@ theorem getPattern_mlPattern_join {s : Src} (hcr : NoLoneCR s) (n p : Nat) (els 
         cases h
         exact finish_mlPatternC (Or.inl rfl) hI hl hf
       · cases h
+
+/-- the same for sources in which every `\r` is followed by `\n` (the hypothesis is not needed any more) -/
+theorem getPattern_mlPattern_join {s : Src} (_hcr : NoLoneCR s) (n p : Nat) (els : List (PatElem Span)) (q : Nat)
+    (h : getPattern s n p = .ok (some els) q) : mlPattern (joinTop (mapPat (spanBytes s) els)) = true :=
+  getPattern_mlPattern_joinAll s n p els q h
 
 end FluentProofs.Ser
